@@ -292,3 +292,27 @@ def h_spec_in_accepts(I, fi, args, kwargs, node):
         return NotImplemented
     ok, res = in_pipeline_terms(I, *args)
     return ok
+
+
+@hook('spec.specfns.queued_in_range')
+def h_queued_in_range(I, fi, args, kwargs, node):
+    from .deps_model import _dq_get
+    q, lo, hi = args
+    items, hn = _dq_get(I, q)
+    I.counter += 1
+    j = z3.Int('qpos!%d' % I.counter)
+    return z3.ForAll([j], z3.Implies(z3.And(j >= 1, j < z3.Length(items)),
+                                       z3.And(items[j] >= zint(I.int_of(lo)), items[j] <= zint(I.int_of(hi)))))
+
+
+@hook('spec.specfns.settings_header_of')
+def h_settings_header_of(I, fi, args, kwargs, node):
+    from .deps_model import settings_arrays, ser_settings, b64e
+    dom, val = settings_arrays(I, args[0], node)
+    body = ser_settings(dom, val)
+    m = I.heap.get(args[0])
+    n = len(m.items) if isinstance(m, DictObj) else m.size
+    if n is not None:
+        from .bytesmodel import blen
+        I.assume(blen(body) == 6 * zint(n))       # 6 bytes per entry (assumed hyperframe contract)
+    return SymStr('bytes', b64e(body))
